@@ -1208,7 +1208,7 @@ func checkVectorShiftImmediateMasked(c *core.Ctx) {
 	info := p.TypesInfo
 	n := 0
 	core.AllFuncDecls(p, func(fd *ast.FuncDecl) {
-		if !strings.HasPrefix(fd.Name.Name, "lowerVIshl") && !strings.HasPrefix(fd.Name.Name, "lowerVUshr") && !strings.HasPrefix(fd.Name.Name, "lowerVSshr") {
+		if ln := strings.ToLower(fd.Name.Name); !strings.HasPrefix(ln, "lowerv") || !(strings.Contains(ln, "shl") || strings.Contains(ln, "shr")) {
 			return
 		}
 		ast.Inspect(fd.Body, func(x ast.Node) bool {
